@@ -52,3 +52,64 @@ class Ctx:
     @classmethod
     def from_json(cls, d):
         return cls(d.get("tier", "quick"), d.get("seed", 1), d.get("active_findings", ()), d.get("extra"))
+
+
+class _StepTimeout(BaseException):
+    pass
+
+
+def guarded_step(it, op, limit=60):
+    """one operation under a wall-clock guard: a runaway operation makes the history inconclusive (rejected)"""
+    import signal
+
+    def handler(signum, frame):
+        raise _StepTimeout()
+    old = signal.signal(signal.SIGALRM, handler)
+    signal.setitimer(signal.ITIMER_REAL, limit)
+    try:
+        it.step(op)
+    except _StepTimeout:
+        it.res.rejected = f"step-timeout(inconclusive): {op.get('op')}"
+        it.res.violations.clear()
+        it.dead = True
+    finally:
+        signal.setitimer(signal.ITIMER_REAL, 0)
+        signal.signal(signal.SIGALRM, old)
+
+
+def ops_machine(init_strategy, op_strategy, interp_factory, sink, budget_hook, max_ops=10):
+    """Generic RuleBasedStateMachine: an @initialize rule draws the initial case (JSON), a single rule draws the next
+    operation (JSON) and hands it to the interpreter, teardown reports (case, result).  The operation list is the
+    replay unit: interp_factory(init).step(op) for every op, then .finish()."""
+    from hypothesis.stateful import RuleBasedStateMachine, initialize, precondition, rule
+
+    class Machine(RuleBasedStateMachine):
+        def __init__(self):
+            super().__init__()
+            self.init = None
+            self.ops = []
+            self.it = None
+            self.skip = budget_hook()
+
+        @initialize(init=init_strategy)
+        def start(self, init):
+            if self.skip:
+                return
+            self.init = init
+            self.it = interp_factory(init)
+
+        @rule(data=__import__("hypothesis").strategies.data())
+        def step(self, data):
+            if self.it is None or len(self.ops) >= max_ops or self.it.dead:
+                return  # (no precondition: Hypothesis requires that some rule is always available)
+            op = data.draw(op_strategy(self.it))
+            self.ops.append(op)
+            guarded_step(self.it, op)
+
+        def teardown(self):
+            if self.skip or self.it is None:
+                return
+            res = self.it.finish()
+            sink({"init": self.init, "ops": self.ops}, res)
+
+    return Machine
